@@ -216,6 +216,14 @@ theorem C09_counterexample_D18 :
         (fun ts => (ts.base.calls.map (·.pc), ts.times.map (fun t => (t.start, t.deadline, t.ret, propertyBound d18Cfg t)))) =
       some ([.done .timeout, .done .sendErr], [(0, 1, 1, 3), (0, 1, 5, 3)]) := by decide
 
+/-- non-vacuity of `C09_bound` / `C09_bound_property_partial` on the same run: the second call sat at
+    the full queue with `WriteTimeout = 5 > 0` and returned at 5 ≤ budget 7; the first call never sat at
+    a full queue, got the lock at 0 ≤ max start deadline, and returned at 1 ≤ property bound 3 -/
+example :
+    (trun d18Cfg (tinit d18Cfg 0) d18Acts).map
+        (fun ts => ts.times.map (fun t => (t.blocked, t.lockAt, t.ret, budget d18Cfg t, propertyBound d18Cfg t))) =
+      some [(false, 0, 1, 2, 3), (true, 0, 5, 7, 3)] := by decide
+
 /-- callers queue up behind the dial lock: DialTimeout 3, call timeout 1; the endpoint does not
     answer the dial; call 0 holds `connLock` for 3 units and fails, then call 1 dials for another 3 -/
 def dialCfg : Cfg := ⟨1, 100, 4, 5, 3, 1⟩
